@@ -121,8 +121,9 @@ theorem C01_plan {P : Input} (hP : P.WF) (hreg : P.reg = []) {a b : Nat}
   exact C01_transitive hwf h (engine_path hP hab (by simpa [PN.isLit] using ha) hbn) hb
 
 /-- The contraction rule of the model is the one in pruning.py (regenerated on every run). -/
-theorem C01_plan_shape : Gen.Stale.facts.pruneLiteralShape = true ∧
-    (∀ m n, Gen.Stale.keepLiteral m n = decide (m * n > m + n)) := ⟨by decide, fun _ _ => rfl⟩
+theorem C01_plan_shape : Gen.Stale.facts.pruneLiteralShape = true ∧ Gen.Stale.facts.pruneSourceLiteralsShape = true ∧
+    Gen.Stale.facts.isSourceNodeShape = true ∧
+    (∀ m n, Gen.Stale.keepLiteral m n = decide (m * n > m + n)) := ⟨by decide, by decide, by decide, fun _ _ => rfl⟩
 
 /-- Non-vacuity of `C01_plan`: calls 0 and 1 → literal 2 → call 3 (all plain dependencies), output 3.  The literal
     (2 predecessors, 1 successor: 2·1 ≤ 2+1) is contracted; the engine graph makes call 3 wait for BOTH calls. -/
